@@ -251,6 +251,36 @@ func genC15(g *Rng, tier string, emit func(Op)) {
 			emit(Op{"ref": true, "op": "hashcommit", "class": "every-count", "vals": hxs(l), "issig": issig})
 		}
 	}
+	// every total content length of the outer SEQUENCE around the points where the DER length form
+	// changes (127/128, 255/256, 65535/65536): one integer of k octets, k swept
+	sweep := func(lo, hi int) {
+		for k := lo; k <= hi; k++ {
+			b := g.bytes(k)
+			b[0] = 0x40 | b[0]&0x7f // exactly k content octets, positive
+			x := new(big.Int).SetBytes(b)
+			for _, issig := range []bool{false, true} {
+				emit(Op{"ref": true, "op": "hashcommit", "class": "content-length-sweep", "vals": hxs([]*big.Int{x}), "issig": issig})
+			}
+		}
+	}
+	sweep(100, 140)
+	sweep(235, 265)
+	// around 65535/65536 octets of content: 117 integers of 556 content octets (560 with their
+	// headers) and one whose size is swept (single huge integers are slow in the model)
+	for k := 5; k <= 14; k++ {
+		l := make([]*big.Int, 118)
+		for i := range l {
+			b := g.bytes(556)
+			if i == 117 {
+				b = g.bytes(k)
+			}
+			b[0] = 0x40 | b[0]&0x7f
+			l[i] = new(big.Int).SetBytes(b)
+		}
+		for _, issig := range []bool{false, true} {
+			emit(Op{"ref": true, "op": "hashcommit", "class": "content-length-sweep-64k", "vals": hxs(l), "issig": issig})
+		}
+	}
 	// challenge sandwich
 	for i := 0; i < nLists/2; i++ {
 		n := g.intn(8)
